@@ -1,6 +1,7 @@
 import Spine.UseCaseLock
 import Spine.UseCaseFrame
 import Spine.Generated.EntityLocal
+import Spine.Generated.UCHelpers
 /-!
 # C20 — facts regenerated from spine/entity_local.go on every run (tie b1)
 
@@ -58,5 +59,24 @@ theorem c20_operations_pass_own_address :
     Generated.EntityLocal.addressOwnAddUseCaseSupport = true ∧ Generated.EntityLocal.addressOwnSetUseCaseAvailability = true ∧
     Generated.EntityLocal.addressOwnRemoveUseCaseSupport = true ∧ Generated.EntityLocal.addressOwnRemoveAllUseCaseSupports = true ∧
     Generated.EntityLocal.addressOwnHasUseCaseSupport = true := by decide
+
+/-! ### copies are values (round 7)
+
+`DataCopy` of the use-case data copies one level: the stored data and every outstanding copy — a reply in preparation,
+the copy an overlapping cycle works on — share the arrays of `useCaseInformation` and of each `useCaseSupport` list.
+`Spine.UC` / `Spine.UC.LSt` treat a copy as a value; that is the code's behaviour exactly as long as no helper of the
+registry writes through an array it did not allocate itself. Regenerated (generator `uchelpers`, syntactic and erring
+on the side of reporting): among the methods of `NodeManagementUseCaseDataType` and `UseCaseInformationDataType` there
+is no index assignment through a slice that was not cloned or made in the same function, no mutating function of
+package `slices`, no `append` / `copy` onto a slice that is not the function's own. -/
+
+/-- no helper of the use-case registry writes into a shared array, and the extraction is not empty: the operations the
+    four `EntityLocal` cycles call are among the methods examined -/
+theorem c20_helpers_never_write_shared_arrays :
+    Generated.UCHelpers.sharedArrayWriters = [] ∧
+    (["NodeManagementUseCaseDataType.AddUseCaseSupport", "NodeManagementUseCaseDataType.SetAvailability",
+      "NodeManagementUseCaseDataType.RemoveUseCaseSupport", "NodeManagementUseCaseDataType.RemoveUseCaseDataForAddress",
+      "UseCaseInformationDataType.Add", "UseCaseInformationDataType.Remove"].all
+        fun m => Generated.UCHelpers.methods.contains m) = true := by decide
 
 end Spine.Props.C20Gen
